@@ -33,7 +33,22 @@ type OverlapCase struct {
 	Ambient    int   `json:"ambient,omitempty"`
 }
 
+// progress counters shared with the stall oracle
+type counters struct {
+	active, handled, published atomic.Int64
+}
+
+func (k *counters) guard(what string, fn func() *vkit.Outcome) *vkit.Outcome {
+	return vkit.StallOracle(fn,
+		func() (int64, bool) { return k.handled.Load() + k.published.Load(), k.active.Load() == 0 },
+		40,
+		func() string {
+			return fmt.Sprintf("%s: %d publishes returned, %d handler invocations completed, no Sequential handler is running and the case does not finish (events never delivered / Wait or Publish blocked)", what, k.published.Load(), k.handled.Load())
+		})
+}
+
 type hstate struct {
+	k       *counters
 	sync    bool
 	seenSet sync.Map // event id -> struct{} once the handler body has finished with it
 	inside  atomic.Int32
@@ -46,6 +61,8 @@ type hstate struct {
 
 func subscribeSeq(bus *eventbus.EventBus, h H, st *hstate) {
 	body := func(id int) {
+		st.k.active.Add(1)
+		defer func() { st.k.handled.Add(1); st.k.active.Add(-1) }()
 		if !st.inside.CompareAndSwap(0, 1) {
 			st.overlap.Add(1)
 		}
@@ -72,10 +89,15 @@ func subscribeSeq(bus *eventbus.EventBus, h H, st *hstate) {
 }
 
 func RunOverlap(c *OverlapCase) *vkit.Outcome {
-	o := &vkit.Outcome{}
 	if c.Procs > 0 {
 		defer runtime.GOMAXPROCS(runtime.GOMAXPROCS(c.Procs))
 	}
+	k := &counters{}
+	return k.guard("concurrent publishers against Sequential handlers", func() *vkit.Outcome { return runOverlap(c, k) })
+}
+
+func runOverlap(c *OverlapCase, k *counters) *vkit.Outcome {
+	o := &vkit.Outcome{}
 	total := 0
 	for _, n := range c.Publishers {
 		total += n
@@ -102,11 +124,12 @@ func RunOverlap(c *OverlapCase) *vkit.Outcome {
 			}
 		}))...)
 		for i, h := range c.Handlers {
-			sts[i] = &hstate{sync: !h.Async}
+			sts[i] = &hstate{sync: !h.Async, k: k}
 			subscribeSeq(bus, h, sts[i])
 		}
 		var start, done sync.WaitGroup
 		var ready atomic.Int32
+		kk := k
 		start.Add(1)
 		base := 0
 		for _, n := range c.Publishers {
@@ -117,6 +140,7 @@ func RunOverlap(c *OverlapCase) *vkit.Outcome {
 				start.Wait()
 				for k := 0; k < n; k++ {
 					eventbus.Publish(bus, Ev{base + k})
+					kk.published.Add(1)
 					// a synchronous handler has run by the time Publish returns
 					if hi := missing(base + k); hi >= 0 {
 						early.CompareAndSwap(nil, fmt.Sprintf("Publish of event %d returned before synchronous Sequential handler %d had handled it", base+k, hi))
@@ -173,10 +197,15 @@ type OrderCase struct {
 }
 
 func RunOrder(c *OrderCase) *vkit.Outcome {
-	o := &vkit.Outcome{}
 	if c.Procs > 0 {
 		defer runtime.GOMAXPROCS(runtime.GOMAXPROCS(c.Procs))
 	}
+	k := &counters{}
+	return k.guard("one publisher against Async+Sequential handlers", func() *vkit.Outcome { return runOrder(c, k) })
+}
+
+func runOrder(c *OrderCase, k *counters) *vkit.Outcome {
+	o := &vkit.Outcome{}
 	bus := eventbus.New(busmodel.Ambient(c.Ambient)...)
 	type st struct {
 		mu   sync.Mutex
@@ -187,6 +216,8 @@ func RunOrder(c *OrderCase) *vkit.Outcome {
 		s := &st{}
 		sts[i] = s
 		body := func(id int) {
+			k.active.Add(1)
+			defer func() { k.handled.Add(1); k.active.Add(-1) }()
 			if len(c.Work) > 0 {
 				for k := 0; k < c.Work[id%len(c.Work)]; k++ {
 					runtime.Gosched()
@@ -209,6 +240,7 @@ func RunOrder(c *OrderCase) *vkit.Outcome {
 		} else {
 			eventbus.Publish(bus, Ev{id})
 		}
+		k.published.Add(1)
 		if len(c.Between) > 0 {
 			for k := 0; k < c.Between[id%len(c.Between)]; k++ {
 				runtime.Gosched()
